@@ -4,21 +4,23 @@
    through), [sphinx] = running under Sphinx, [suppressed] = myst.xref_missing is listed in
    suppress_warnings, [slug_hash] = true is the code after the fix: commit. *)
 From Coq Require Import List NArith Bool.
-From MV Require Import Base.PyStr Base.Res Refs.RUtil Refs.Anchors Refs.AnchorsProofs.
+From MV Require Import Base.PyStr Base.Res Refs.RUtil Refs.Anchors Refs.AnchorsProofs Refs.AnchorsSphinx.
+From MV Require XRef.XRefModel.
 Import ListNotations.
 Open Scope N_scope.
 
 (* The explicit table built from the docutils registries holds exactly the names flagged
    explicit in nametypes whose id is still valid (not invalidated by a duplicate) and whose
-   node is not a footnote, a target carrying a refuri, or an object description: with the
+   node is not a footnote, a *target node* carrying a refuri (after the fix: commit; before it, any
+   node with a refuri - [legacy_refuri]), or an object description: with the
    node's label id and implicit title.  (nametypes is a dict: its keys are distinct.) *)
-Theorem C09_explicit_spec : forall rg ex,
+Theorem C09_explicit_spec : forall legacy_refuri rg ex,
   NoDup (map fst (nametypes rg)) ->
-  build_explicit rg = Ok ex ->
+  build_explicit legacy_refuri rg = Ok ex ->
   forall name,
     dget ex name =
     match dget (nametypes rg) name with
-    | Some true => match entry rg name with Ok (Some v) => Some v | _ => None end
+    | Some true => match entry legacy_refuri rg name with Ok (Some v) => Some v | _ => None end
     | _ => None
     end.
 Proof. exact build_explicit_spec. Qed.
@@ -66,9 +68,51 @@ Print Assumptions C09_missing_suppressed.
 Theorem C09_missing_sphinx_pending : forall nl suppressed slug_hash ex slugs r,
   dget ex (r_frag r) = None -> dget slugs (r_frag r) = None ->
   let o := resolve_one nl true suppressed slug_hash ex slugs r in
-  o_pending o = true /\ o_warn o = [] /\ o_refid o = None /\ o_fill o = None.
+  o_pending o = true /\ o_warn o = [] /\ o_refid o = None /\ o_fill o = None /\ o_pline o = r_line r.
 Proof. exact missing_sphinx. Qed.
 Print Assumptions C09_missing_sphinx_pending.
+
+(* Sphinx, end to end for a link the document cannot resolve: ResolveAnchorIds leaves one pending_xref
+   carrying the link's own line (fix f134597); MystReferenceResolver (the C12 model XRefModel.resolve_any,
+   cf. C12_missing_once_any / C12_missing_at_most_once) then logs exactly one xref_missing naming the
+   fragment iff nothing in the project resolves it - no label/document candidate (resolve_ref_nested on
+   the lower-cased target, resolve_doc_nested, other std objects, other domains: any_candidates) and no
+   intersphinx entry - and none otherwise.  Premise: the target is not listed in nitpick_ignore. *)
+Theorem C09_sphinx_fallthrough :
+  forall (std_objects other_domains : str -> list XRefModel.cand) (intersphinx : str -> option XRefModel.cand)
+         nl suppressed slug_hash ex slugs r P from,
+  dget ex (r_frag r) = None -> dget slugs (r_frag r) = None ->
+  mem_str (r_frag r) (XRefModel.p_nitpick P) = false ->
+  let o := resolve_one nl true suppressed slug_hash ex slugs r in
+  let ws := resolver_warnings std_objects other_domains intersphinx P from r in
+  o_pending o = true /\ o_warn o = [] /\ o_pline o = r_line r /\
+  (XRefModel.count_missing ws <= 1)%nat /\
+  (XRefModel.count_missing ws = 1%nat <->
+     XRefModel.any_candidates std_objects other_domains P from (r_has_text r) (r_frag r) = []
+     /\ intersphinx (r_frag r) = None) /\
+  (XRefModel.count_missing ws = 1%nat -> ws = [XRefModel.W_missing (r_frag r)]).
+Proof. exact sphinx_fallthrough. Qed.
+Print Assumptions C09_sphinx_fallthrough.
+
+(* REFUTED clause (open finding text:missing-empty-not-filled, shared with C14's
+   suppress-side-effect:xref_missing:fallback-link-text): an empty link to a missing target is left
+   with the system message and no visible text; '#name' appears only when the warning is suppressed
+   (C09_missing_suppressed).  The pinned test fixtures expect this output. *)
+Theorem C09_missing_empty_text_refuted :
+  exists nl r, r_has_text r = false /\
+    let o := resolve_one nl false false true [] [] r in
+    o_fill o = None /\ o_msg o = true /\ o_refid o = Some (nl (r_frag r)).
+Proof. exact missing_empty_text_not_filled. Qed.
+Print Assumptions C09_missing_empty_text_refuted.
+
+(* before fix 37bd485 an id attribute on an external link was not a link target *)
+Theorem C09_attr_id_on_link_before_fix_refuted :
+  exists rg name,
+    dget (nametypes rg) name = Some true /\
+    (exists ex, build_explicit true rg = Ok ex /\ dget ex name = None) /\
+    (exists ex v, build_explicit false rg = Ok ex /\ dget ex name = Some v).
+Proof. exact attr_id_on_link_before_fix. Qed.
+Print Assumptions C09_attr_id_on_link_before_fix_refuted.
 
 (* the warnings of a whole run: one per missing link, in document order, none for any other *)
 Theorem C09_warnings_exact : forall nl sphinx suppressed slug_hash ex slugs refs,
@@ -81,8 +125,8 @@ Print Assumptions C09_warnings_exact.
 
 (* nothing dropped, duplicated or reordered: the outputs are the references, one for one, in
    order, and a link that had text gets nothing added *)
-Theorem C09_refs_preserved : forall nl sphinx suppressed slug_hash rg slugs refs outs,
-  apply nl sphinx suppressed slug_hash rg slugs refs = Ok outs ->
+Theorem C09_refs_preserved : forall nl sphinx suppressed slug_hash legacy_refuri rg slugs refs outs,
+  apply nl sphinx suppressed slug_hash legacy_refuri rg slugs refs = Ok outs ->
   length outs = length refs /\
   map o_frag outs = map r_frag refs /\
   Forall2 (fun r o => r_has_text r = true -> o_fill o = None) refs outs.
@@ -125,7 +169,7 @@ Example C09_example :
   let refs := [ {| r_frag := [97]; r_has_text := false; r_line := Some 5 |};
                 {| r_frag := [98]; r_has_text := false; r_line := Some 6 |};
                 {| r_frag := [99]; r_has_text := true;  r_line := Some 7 |} ] in
-  match apply (fun s => s) false false true rg slugs refs with
+  match apply (fun s => s) false false true false rg slugs refs with
   | Ok outs =>
       map o_refid outs = [Some [105;49]; Some [115;50]; Some [99]] /\
       map o_fill outs = [Some [35;97]; Some [66]; None] /\
